@@ -231,3 +231,87 @@ def rule_inventory(ctx):
 
 
 RULES.append(("C15.g", "inventory: no new narrowing integer cast", rule_inventory))
+
+
+def _uncast_call(b, operand, site, pat, depth=0):
+    """the operand is the unmodified result of a call matching `pat` (moves / copies allowed, no cast, no arithmetic)."""
+    import re
+    if operand.get("k") not in ("copy", "move") or operand["pl"]["p"] or depth > 4:
+        return False
+    defs = b.reaching_defs(operand["pl"]["l"], site)
+    if not defs:
+        return False
+    for d in defs:
+        if d.is_term:
+            if not (d.node["t"] == "call" and re.search(pat, d.callee or "")):
+                return False
+        else:
+            r = d.node["r"]
+            if r["r"] != "use" or not _uncast_call(b, r["o"], d, pat, depth + 1):
+                return False
+    return True
+
+
+def rule_time_cell_fields(ctx):
+    """The cell that holds the simulation time stores the time's own components, unconverted: seconds as returned by as_secs() (the
+    full i64), sub-second nanoseconds as returned by subsec_nanos(), and rebuilds the time from exactly these two fields. A narrowed
+    or mixed-up component keeps every protocol rule intact and lets validated deadlines and reported times wrap."""
+    P = ctx.prog
+    T = "time::monotonic_time::TearableAtomicTime"
+    A = "std::sync::atomic::Atomic::"
+    st = ctx.body("<%s as util::sync_cell::TearableAtomic>::tearable_store" % T)
+    ld = ctx.body("<%s as util::sync_cell::TearableAtomic>::tearable_load" % T)
+    nw = ctx.body(T + "::new")
+    from .. import atomics
+    if st is not None:
+        ss = list(st.calls("^" + A + "store$"))
+        got = {}
+        for s in ss:
+            f = atomics.receiver_field(st, s)
+            pat = {"secs": r"::as_secs$", "nanos": r"::subsec_nanos$"}.get(f)
+            ok = pat is not None and _uncast_call(st, s.args()[1], s, pat)
+            if ok:
+                # taken from the value being stored
+                o = st.origins(s.args()[1], s)
+                c = Site(st, next(iter(o))[1], TERM) if len(o) == 1 and next(iter(o))[0] == "call" else None
+                ok = c is not None and st.origins(c.args()[0], c) == frozenset([("arg", 2)])
+            got[f] = ok and not st.conditions(s)
+        ctx.ob("time-cell|store-components", got == {"secs": True, "nanos": True},
+               "tearable_store writes value.as_secs() to `secs` and value.subsec_nanos() to `nanos`, unconverted and unconditionally (%s)" % got, ss)
+    if ld is not None:
+        nws = list(ld.calls(r"^tai_time::TaiTime::new$"))
+        ok = len(nws) == 1
+        if ok:
+            n = nws[0]
+            fields = []
+            for i in (0, 1):
+                okc = _uncast_call(ld, n.args()[i], n, "^" + A + "load$")
+                o = ld.origins(n.args()[i], n)
+                c = Site(ld, next(iter(o))[1], TERM) if len(o) == 1 and next(iter(o))[0] == "call" else None
+                fields.append(atomics.receiver_field(ld, c) if (okc and c is not None) else None)
+            ok = fields == ["secs", "nanos"]
+            rets = K.ret_assigns(ld)
+            ok = ok and len(rets) == 1 and K.flows_from(ld, ld.origins({"k": "copy", "pl": {"l": 0, "p": []}}, Site(ld, ld.return_blocks()[0], TERM)),
+                                                        lambda t: t == ("call", n.b, n.callee))
+        ctx.ob("time-cell|load-components", ok, "tearable_load rebuilds the time from the loaded `secs` and `nanos` fields, unconverted", nws)
+    if nw is not None:
+        aggs = list(nw.aggregates(adt=T))
+        ok = len(aggs) == 1
+        if ok:
+            a = aggs[0]
+            fo = dict(zip(a.node["r"]["fields"], a.node["r"]["ops"]))
+            for f, pat in (("secs", r"::as_secs$"), ("nanos", r"::subsec_nanos$")):
+                o = nw.origins(fo[f], a)
+                c = Site(nw, next(iter(o))[1], TERM) if len(o) == 1 and next(iter(o))[0] == "call" and next(iter(o))[2] == A + "new" else None
+                ok = ok and c is not None and _uncast_call(nw, c.args()[0], c, pat)
+        ctx.ob("time-cell|initial-components", ok, "the initial time is stored component-wise, unconverted", aggs)
+    a = P.adts.get(T)
+    if a:
+        tys = {f["name"]: f["ty"] for v in a["variants"] for f in v["fields"]}
+        ok = "i64" in tys.get("secs", "") and "u32" in tys.get("nanos", "")
+        ctx.ob("time-cell|field-widths", ok, "`secs` is a 64-bit signed atomic and `nanos` a 32-bit unsigned one (the widths of MonotonicTime's components): %s" % tys, ["adt " + T])
+    else:
+        ctx.missing("adt " + T)
+
+
+RULES.append(("C15.h", "the time cell stores and rebuilds the time's own components, unconverted", rule_time_cell_fields))
